@@ -65,6 +65,12 @@ def array2string(a, *args, **kwargs):
     )
 
 
+def _wrap_out_result(res, units):
+    # class follows the shape of the result, as in the out=None branches
+    cls = unyt_quantity if np.ndim(res) == 0 else unyt_array
+    return cls(res, units, bypass_validation=True)
+
+
 def product_helper(a, b, out, func):
     prod_units = getattr(a, "units", NULL_UNIT) * getattr(b, "units", NULL_UNIT)
     if out is None:
@@ -72,7 +78,7 @@ def product_helper(a, b, out, func):
     res = func._implementation(np.asarray(a), np.asarray(b), out=np.asarray(out))
     if getattr(out, "units", None) is not None:
         out.units = prod_units
-    return unyt_array(res, prod_units, bypass_validation=True)
+    return _wrap_out_result(res, prod_units)
 
 
 @implements(np.dot)
@@ -484,7 +490,7 @@ def around(a, decimals=0, out=None):
     )
     if getattr(out, "units", None) is not None:
         out.units = ret_units
-    return unyt_array(res, ret_units, bypass_validation=True)
+    return _wrap_out_result(res, ret_units)
 
 
 @implements(np.block)
@@ -943,7 +949,7 @@ def choose(a, choices, out=None, *args, **kwargs):
     )
     if getattr(out, "units", None) is not None:
         out.units = retu
-    return unyt_array(res, retu, bypass_validation=True)
+    return _wrap_out_result(res, retu)
 
 
 @implements(np.fill_diagonal)
@@ -1056,7 +1062,7 @@ def clip_impl(a, a_min, a_max, out=None, *args, **kwargs):
     )
     if getattr(out, "units", None) is not None:
         out.units = a.units
-    return unyt_array(res, a.units, bypass_validation=True)
+    return _wrap_out_result(res, a.units)
 
 
 if NUMPY_VERSION >= Version("2.1.0.dev0"):
